@@ -212,6 +212,26 @@ Definition comps := list (ckey * component).
 Definition comp_get (k : ckey) (m : comps) : option component :=
   match find (fun e => ckey_eqb (fst e) k) m with Some (_, c) => Some c | None => None end.
 
+(* A second assignment of a key to the range-check template (Gen.CurveTables.rangecheck_policy, read from the
+   source): "insert" = `components.insert(..)`, the last assignment wins (the code of the current tree: a
+   `Num2Bits(300)` on one path and a `Num2Bits(20)` on a later one count as the latter - deviation
+   C11-component-assigned-on-two-paths); "weakest" = the proposed repair, `keep_old`: an entry whose size is not
+   a known field element stays, of two known sizes the larger stays.  Any other policy: nothing is recorded
+   (the model then disagrees with the binary). *)
+Definition keep_old (o : option component) (a : argval) : bool :=
+  if String.eqb rangecheck_policy "insert" then false
+  else if String.eqb rangecheck_policy "weakest" then
+    match o with
+    | Some (CNum2Bits old) =>
+      match old, a with
+      | VField o', VField n => n <=? o'
+      | VField _, _ => false
+      | _, _ => true
+      end
+    | _ => false
+    end
+  else true.
+
 (* fn update_components; `args[0]` with an empty argument list is a panic site *)
 Definition components_panic (s : stmt) : bool :=
   match s with
@@ -230,7 +250,10 @@ Definition update_components (m : comps) (s : stmt) : comps :=
     else if String.eqb (cname cl) (fst lessthan_template) && (Z.of_nat (length (cargs cl)) =? snd lessthan_template)
     then ((var, acc), CLessThan) :: m
     else if String.eqb (cname cl) (fst rangecheck_template) && (Z.of_nat (length (cargs cl)) =? snd rangecheck_template)
-    then match cargs cl with a :: _ => ((var, acc), CNum2Bits a) :: m | [] => m end
+    then match cargs cl with
+         | a :: _ => if keep_old (comp_get (var, acc) m) a then m else ((var, acc), CNum2Bits a) :: m
+         | [] => m
+         end
     else m
   | _ => m
   end.
